@@ -20,6 +20,44 @@ fn run(program: &str) -> std::result::Result<String, String> {
     .map_err(|_| "PANIC".to_string())
 }
 
+// ---- BOUNDED enumeration (stated bound): every ellipsis-free pattern of the class below against every datum of the class below,
+// compared with an independent reference matcher written from the property's second sentence ----
+#[derive(Clone, Debug, PartialEq)]
+enum Pt { Var(&'static str), Lit, Wild, One, List(Vec<Pt>) }               // a b | the literal identifier x | _ | the datum 1 | ( ... )
+#[derive(Clone, Debug, PartialEq)]
+enum Dt { Sym(&'static str), Num(i32), List(Vec<Dt>, Option<Box<Dt>>) }    // x y a | 1 2 | ( ... ) or ( ... . tail)
+
+fn pt_text(p: &Pt) -> String {
+    match p {
+        Pt::Var(v) => v.to_string(), Pt::Lit => "x".to_string(), Pt::Wild => "_".to_string(), Pt::One => "1".to_string(),
+        Pt::List(items) => format!("({})", items.iter().map(pt_text).collect::<Vec<_>>().join(" ")),
+    }
+}
+fn dt_text(d: &Dt) -> String {
+    match d {
+        Dt::Sym(s) => s.to_string(), Dt::Num(k) => k.to_string(),
+        Dt::List(items, None) => format!("({})", items.iter().map(dt_text).collect::<Vec<_>>().join(" ")),
+        Dt::List(items, Some(t)) => format!("({} . {})", items.iter().map(dt_text).collect::<Vec<_>>().join(" "), dt_text(t)),
+    }
+}
+// pattern variables and _ match any form, the literal identifier only itself, a literal datum only an equal datum, a list
+// pattern a proper list of the same length element-wise
+fn ref_match(p: &Pt, d: &Dt, binds: &mut Vec<(&'static str, Dt)>) -> bool {
+    match (p, d) {
+        (Pt::Var(v), _) => { binds.push((v, d.clone())); true }
+        (Pt::Wild, _) => true,
+        (Pt::Lit, Dt::Sym("x")) => true,
+        (Pt::Lit, _) => false,
+        (Pt::One, Dt::Num(1)) => true,
+        (Pt::One, _) => false,
+        (Pt::List(ps), Dt::List(ds, None)) => ps.len() == ds.len() && ps.iter().zip(ds.iter()).all(|(p, d)| ref_match(p, d, binds)),
+        (Pt::List(_), _) => false,
+    }
+}
+fn pt_vars(p: &Pt, out: &mut Vec<&'static str>) {
+    match p { Pt::Var(v) => out.push(v), Pt::List(items) => items.iter().for_each(|i| pt_vars(i, out)), _ => {} }
+}
+
 #[test]
 fn verif_native_macro_witness() {
     std::panic::set_hook(Box::new(|_| {}));
@@ -81,8 +119,60 @@ fn verif_native_macro_witness() {
             bad.push(format!("{:?} then {:?} -> {:?}, expected {:?}", def, use_, got, want));
         }
     }
+    // BOUNDED part.  Patterns: atoms a b x(literal) _ 1, lists of length <= 2 over atoms and over () / (atom); no variable twice.
+    // Data: atoms x y a 1 2; lists of length <= 2 over atoms, (), (atom); the same with an atom as dotted tail.
+    let atoms_p = vec![Pt::Var("a"), Pt::Var("b"), Pt::Lit, Pt::Wild, Pt::One];
+    let mut elems_p = atoms_p.clone();
+    elems_p.push(Pt::List(vec![]));
+    for a in atoms_p.iter() { elems_p.push(Pt::List(vec![a.clone()])); }
+    let mut patterns = atoms_p.clone();
+    patterns.push(Pt::List(vec![]));
+    for a in elems_p.iter() { patterns.push(Pt::List(vec![a.clone()])); }
+    for a in elems_p.iter() { for b in elems_p.iter() { patterns.push(Pt::List(vec![a.clone(), b.clone()])); } }
+    patterns.retain(|p| { let mut v = Vec::new(); pt_vars(p, &mut v); let mut u = v.clone(); u.sort(); u.dedup(); u.len() == v.len() });
+    let atoms_d = vec![Dt::Sym("x"), Dt::Sym("y"), Dt::Sym("a"), Dt::Num(1), Dt::Num(2)];
+    let mut elems_d = atoms_d.clone();
+    elems_d.push(Dt::List(vec![], None));
+    for a in atoms_d.iter() { elems_d.push(Dt::List(vec![a.clone()], None)); }
+    let mut data = atoms_d.clone();
+    data.push(Dt::List(vec![], None));
+    for a in elems_d.iter() {
+        data.push(Dt::List(vec![a.clone()], None));
+        for t in atoms_d.iter() { data.push(Dt::List(vec![a.clone()], Some(Box::new(t.clone())))); }
+    }
+    for a in elems_d.iter() { for b in elems_d.iter() {
+        data.push(Dt::List(vec![a.clone(), b.clone()], None));
+        data.push(Dt::List(vec![a.clone(), b.clone()], Some(Box::new(Dt::Num(2)))));
+    } }
+    let mut m = 0u64;
+    let enumerated = std::panic::catch_unwind(std::panic::AssertUnwindSafe(|| {
+        let mut worst: Vec<String> = Vec::new();
+        let mut it = Interpreter::<f32>::new_with_stdlib();
+        let mut count = 0u64;
+        for p in patterns.iter() {
+            // rule 1: the pattern under test; rule 2 catches every other one-operand use
+            let def = format!("(define-syntax m (syntax-rules (x) ((m {}) (quote (hit a b))) ((m other) (quote no))))", pt_text(p));
+            if it.eval(def.chars()).is_err() { worst.push(format!("{:?} is rejected", def)); continue; }
+            for d in data.iter() {
+                count += 1;
+                let mut binds = Vec::new();
+                let want = if ref_match(p, d, &mut binds) {
+                    let get = |v: &str| binds.iter().find(|(n, _)| *n == v).map(|(_, d)| dt_text(d)).unwrap_or(v.to_string());
+                    format!("(hit {} {})", get("a"), get("b"))
+                } else { "no".to_string() };
+                let use_ = format!("(m {})", dt_text(d));
+                let got = match it.eval(use_.chars()) { Ok(v) => v.map(|v| v.to_string()).unwrap_or_default(), Err(e) => format!("error {}", e) };
+                if got != want && worst.len() < 4 { worst.push(format!("{:?} then {:?} -> {:?}, the reference matcher gives {:?}", def, use_, got, want)); }
+            }
+        }
+        (count, worst)
+    }));
+    match enumerated {
+        Ok((count, worst)) => { m = count; bad.extend(worst); }
+        Err(_) => bad.push("the bounded enumeration PANICKED".to_string()),
+    }
     if bad.is_empty() {
-        println!("VERIF-NATIVE: ok {} macro uses: first matching rule, literals, _, variables and the no-match error behave as specified", n);
+        println!("VERIF-NATIVE: ok {} macro uses + {} (pattern, datum) pairs of the bounded ellipsis-free class against a reference matcher: first matching rule, literals, _, variables and the no-match error behave as specified", n, m);
     } else {
         println!("VERIF-NATIVE: disagree {}", bad.join(" ; "));
     }
